@@ -14,14 +14,6 @@ def macroScalar : Scalar → Scalar
 theorem floatChar_ne_quote (ch : Char) (h : floatChar ch = true) : ch ≠ '"' := by
   intro e; subst e; revert h; decide
 
-/-- the token after the macro name, classified -/
-def defineTok (tok : Str) : Option Scalar :=
-  match tok with
-  | '"' :: _ => (unquote .backslash tok).map Scalar.s
-  | _ => match readInt tok with
-    | some i => some (Scalar.i i)
-    | none => if tok ≠ [] ∧ tok.all floatChar then some (Scalar.f tok) else none
-
 theorem defineTok_bare (tok : Str) (hne : tok ≠ []) (h : ∀ ch ∈ tok, floatChar ch = true) :
     defineTok tok = match readInt tok with
       | some i => some (Scalar.i i)
@@ -45,22 +37,7 @@ theorem readDefineLine_eq (name tok : Str) (hn : ∀ ch ∈ name, ch ≠ ' ') :
     · intro x r e; simp at e; simp [← e.1]
   unfold readDefineLine
   simp only [dropPrefix_append, Option.bind_eq_bind, Option.bind_some, hspan, dropPrefix?, if_true]
-  unfold defineTok
-  cases tok with
-  | nil => simp [readInt, readNat, digitsOf]
-  | cons c cs =>
-    by_cases hc : c = '"'
-    · subst hc; cases h : unquote Quoting.backslash ('"' :: cs) <;> simp [h]
-    · split
-      · rename_i heq; simp at heq; exact absurd heq.1 hc
-      · split
-        · rename_i heq2; simp at heq2; exact absurd heq2.1 hc
-        · cases hr : readInt (c :: cs) with
-          | some i => simp
-          | none =>
-            by_cases hall : (c :: cs).all floatChar = true
-            · simp [hall]
-            · simp [hall]
+  cases defineTok tok <;> rfl
 
 /-- a scalar parameter in the `define` list: the `#define` line reads back as name and value -/
 theorem readDefineLine_lineDefine (ren : Bool) (p : Param) (s : Scalar)
@@ -96,5 +73,312 @@ theorem readDefineLine_lineDefine (ren : Bool) (p : Param) (s : Scalar)
     rw [this, Option.bind_some, readDefineLine_eq _ _ hn,
       defineTok_bare _ hne (fun ch hch => List.all_eq_true.mp hall ch hch), hf t rfl]
     simp [macroScalar]
+
+/-! ## one body line of a header -/
+
+theorem lineConst_head (backend kw : Str) (ren : Bool) (p : Param) (l : Str)
+    (h : lineConst backend kw ren p = some l) : ∃ r, l = kw ++ ' ' :: r := by
+  unfold lineConst at h
+  cases ht : lookupType backend p.kind p.bits with
+  | none => simp [ht] at h
+  | some dtype =>
+    cases hs : shapeOf p.value with
+    | none => simp [ht, hs] at h
+    | some sh =>
+      simp only [ht, hs, Option.bind_eq_bind, Option.bind_some] at h
+      split at h <;> (simp at h; subst h; exact ⟨_, rfl⟩)
+
+theorem isDeclLine_kw (kw : Str) (hkw : kw = cs!"const" ∨ kw = cs!"constexpr") (r : Str) :
+    isDeclLine (kw ++ ' ' :: r) = true := by
+  rcases hkw with rfl | rfl <;> simp [isDeclLine, dropPrefix?]
+
+/-- the conditions under which a parameter's line is read back -/
+def ParamOKC (ren : Bool) (define : List Str) (p : Param) : Prop :=
+  (∀ ch ∈ rename ren p.name, ch ≠ '[' ∧ ch ≠ ' ') ∧ clean (rename ren p.name) = true ∧
+  ValOK p.kind p.value ∧ NoNL p.value ∧ (∃ sh, rectShape p.value = some sh ∧ 0 ∉ sh) ∧
+  (define.contains p.name = true → ∃ s, p.value = .leaf s ∧ ∀ t, s = .f t → readInt t = none)
+
+/-- the line `ExportConfigC.parse` / `ExportConfigCPP.parse` writes for one parameter -/
+def lineOfC (backend kw : Str) (ren : Bool) (define : List Str) (p : Param) : Option Str :=
+  if define.contains p.name then lineDefine ren p else lineConst backend kw ren p
+
+theorem readLineC_lineOfC (backend kw : Str) (hb : backend = bC ∨ backend = bCpp)
+    (hkw : kw = cs!"const" ∨ kw = cs!"constexpr") (ren : Bool) (define : List Str) (p : Param)
+    (hok : ParamOKC ren define p) :
+    (lineOfC backend kw ren define p).bind (readLineC backend) =
+      expectedSym backend ren (define.contains p.name) (macroParam define p) := by
+  obtain ⟨hn, _, hv, _, ⟨sh, hr, h0⟩, hdef⟩ := hok
+  cases hd : define.contains p.name with
+  | false =>
+    have hd' : p.name ∉ define := by simpa using hd
+    have hmp : macroParam define p = p := by simp [macroParam, hd']
+    rw [hmp]
+    simp only [lineOfC, hd, Bool.false_eq_true, ↓reduceIte]
+    have key := readConstLine_lineConst backend kw hb hkw ren p sh hn hv hr h0
+    cases hl : lineConst backend kw ren p with
+    | none => rw [hl] at key; simpa using key
+    | some l =>
+      rw [hl] at key
+      obtain ⟨r, rfl⟩ := lineConst_head backend kw ren p l hl
+      simp only [Option.bind_some] at key ⊢
+      have hdl := isDeclLine_kw kw hkw r
+      unfold readLineC
+      rw [hdl]
+      simpa using key
+  | true =>
+    obtain ⟨s, hleaf, hf⟩ := hdef hd
+    have hs : ScalarOK p.kind s := by rw [hleaf] at hv; simpa [ValOK] using hv
+    have key := readDefineLine_lineDefine ren p s (fun ch hch => (hn ch hch).2) hleaf hs hf
+    have hd' : p.name ∈ define := by simpa using hd
+    simp only [lineOfC, hd, ↓reduceIte]
+    have hexp : expectedSym backend ren true (macroParam define p) =
+        some ⟨rename ren p.name, macroDecl, [], false, .leaf (macroScalar s)⟩ := by
+      cases s <;> simp [expectedSym, macroParam, hd', hleaf, shapeOf, macroScalar]
+    rw [hexp, ← key]
+    cases hl : lineDefine ren p with
+    | none => rfl
+    | some l =>
+      have hnd : isDeclLine l = false := by
+        unfold lineDefine at hl
+        rw [hleaf] at hl
+        cases s <;> (simp at hl; subst hl; simp [isDeclLine, dropPrefix?])
+      simp [readLineC, hnd]
+
+/-! ## the header frame -/
+
+theorem readBodyC_lines (backend endline : Str) : ∀ body : List Str, (∀ l ∈ body, l ≠ []) →
+    readBodyC backend endline (body ++ [[], endline]) = body.mapM (readLineC backend)
+  | [], _ => by simp [readBodyC]
+  | l :: ls, h => by
+    have hl : l ≠ [] := h l (by simp)
+    have ih := readBodyC_lines backend endline ls (fun x hx => h x (by simp [hx]))
+    simp only [List.cons_append, readBodyC, hl, if_false, ih, List.mapM_cons, Option.bind_eq_bind, Option.pure_def]
+
+theorem stripInclude_body (endline : Str) (he : endline ≠ []) : ∀ body : List Str,
+    (∀ l ∈ body, l ≠ [] ∧ l ≠ includeLine) →
+    stripInclude (body ++ [[], endline]) = body ++ [[], endline]
+  | [], _ => by simp [stripInclude, he]
+  | [l], h => by
+    have := (h l (by simp)).2
+    simp [stripInclude, this]
+  | l :: m :: ls, h => by
+    have := (h m (by simp)).1
+    simp [stripInclude, this]
+
+theorem clean_lit_ifndef : clean (cs!"#ifndef ") = true := by decide
+theorem clean_lit_define : clean (cs!"#define ") = true := by decide
+theorem clean_lit_endif : clean (cs!"#endif /* ") = true := by decide
+theorem clean_lit_close : clean (cs!" */") = true := by decide
+
+/-- reading a header written by `headerWrap` = reading its body lines -/
+theorem readC_headerWrap (backend guard : Str) (inc : Bool) (body : List Str) (hg : clean guard = true)
+    (hbody : ∀ l ∈ body, clean l = true ∧ l ≠ [] ∧ l ≠ includeLine) :
+    readC backend guard (headerWrap guard inc body) = body.mapM (readLineC backend) := by
+  let endline : Str := cs!"#endif /* " ++ guard ++ cs!" */"
+  have hend : endline ≠ [] := by simp [endline]
+  have hcl_end : clean endline = true := by
+    simp only [endline, clean_append, clean_lit_endif, clean_lit_close, hg, Bool.and_self]
+  let all : List Str := [cs!"#ifndef " ++ guard, cs!"#define " ++ guard, []] ++
+    (if inc then [cs!"#include <stdbool.h>", []] else []) ++ body ++ [[], endline]
+  have hlines : lines (headerWrap guard inc body) = all := by
+    unfold headerWrap
+    apply lines_joinWith
+    · simp
+    · intro l hl
+      apply (clean_iff l).mp
+      simp only [List.mem_append, List.mem_cons, List.mem_nil_iff, or_false] at hl
+      rcases hl with ((hl | hl) | hl) | hl
+      · rcases hl with rfl | rfl | rfl
+        · simp only [clean_append, clean_lit_ifndef, hg, Bool.and_self]
+        · simp only [clean_append, clean_lit_define, hg, Bool.and_self]
+        · rfl
+      · cases inc
+        · simp at hl
+        · simp at hl
+          rcases hl with rfl | rfl <;> decide
+      · exact (hbody l hl).1
+      · rcases hl with rfl | rfl
+        · rfl
+        · exact hcl_end
+  unfold readC
+  rw [hlines]
+  simp only [all, List.cons_append, List.nil_append, and_self, if_true, Option.bind_eq_bind, Option.bind_some]
+  have hstrip : stripInclude ((if inc then [cs!"#include <stdbool.h>", []] else []) ++ (body ++ [[], endline])) =
+      body ++ [[], endline] := by
+    cases inc
+    · simpa using stripInclude_body endline hend body (fun l hl => (hbody l hl).2)
+    · simp [stripInclude, includeLine]
+  have hassoc : (if inc then [cs!"#include <stdbool.h>", []] else []) ++ body ++ [[], endline] =
+      (if inc then [cs!"#include <stdbool.h>", []] else []) ++ (body ++ [[], endline]) := by simp
+  rw [hassoc, hstrip]
+  exact readBodyC_lines backend endline body (fun l hl => (hbody l hl).2.1)
+
+/-! ## body lines are clean, non-empty and no include line -/
+
+theorem clean_joinWith (sep : Str) (hs : clean sep = true) : ∀ ls : List Str, (∀ l ∈ ls, clean l = true) →
+    clean (joinWith sep ls) = true
+  | [], _ => rfl
+  | [a], h => by simpa [joinWith] using h a (by simp)
+  | a :: b :: r, h => by
+    have h1 := h a (by simp)
+    have h2 := clean_joinWith sep hs (b :: r) (fun l hl => h l (by simp [hl]))
+    simp [joinWith, clean_append, h1, hs, h2]
+
+theorem clean_shapeBrackets (sh : List Nat) : clean (shapeBrackets sh) = true := by
+  have : clean (joinWith [']', '['] (sh.map showNat)) = true :=
+    clean_joinWith _ (by decide) _ (by
+      intro l hl
+      obtain ⟨d, _, rfl⟩ := List.mem_map.mp hl
+      exact clean_showNat d)
+  simp [shapeBrackets, clean_append, clean_cons, clean_nil, this]
+
+theorem c_names_clean : ∀ b ∈ [bC, bCpp], ∀ t ∈ targets b, clean t = true := by decide +kernel
+
+theorem clean_showInt (i : Int) : clean (showInt i) = true := clean_of_floatChars _ (showInt_floatChars i)
+
+theorem lineOfC_clean (backend kw : Str) (hb : backend = bC ∨ backend = bCpp)
+    (hkw : kw = cs!"const" ∨ kw = cs!"constexpr") (ren : Bool) (define : List Str) (p : Param)
+    (hok : ParamOKC ren define p) (l : Str) (h : lineOfC backend kw ren define p = some l) :
+    clean l = true ∧ l ≠ [] ∧ l ≠ includeLine := by
+  obtain ⟨_, hn, hv, hnl, _, hdef⟩ := hok
+  unfold lineOfC at h
+  cases hd : define.contains p.name with
+  | true =>
+    obtain ⟨s, hleaf, _⟩ := hdef hd
+    simp only [hd, if_true] at h
+    unfold lineDefine at h
+    rw [hleaf] at h hv hnl
+    cases s with
+    | s v =>
+      have hcv : clean v = true := hnl
+      simp at h; subst h
+      refine ⟨?_, by simp, by simp [includeLine]⟩
+      simp [clean_append, clean_cons, clean_nil, hn, quoteStr, clean_escStr _ v hcv]
+    | b v =>
+      simp at h; subst h
+      refine ⟨?_, by simp, by simp [includeLine]⟩
+      cases v <;> simp [clean_append, clean_cons, clean_nil, hn]
+    | i v =>
+      simp at h; subst h
+      refine ⟨?_, by simp, by simp [includeLine]⟩
+      simp [clean_append, clean_cons, hn, clean_showInt]
+    | f t =>
+      have hct : clean t = true := by
+        have hs : ScalarOK p.kind (.f t) := by simpa [ValOK] using hv
+        exact clean_of_floatChars t (fun ch hch => List.all_eq_true.mp hs.2.2 ch hch)
+      simp at h; subst h
+      refine ⟨?_, by simp, by simp [includeLine]⟩
+      simp [clean_append, clean_cons, hn, hct]
+  | false =>
+    simp only [hd, Bool.false_eq_true, ↓reduceIte] at h
+    obtain ⟨r, hr⟩ := lineConst_head backend kw ren p l h
+    have hne : l ≠ [] ∧ l ≠ includeLine := by
+      subst hr
+      rcases hkw with rfl | rfl <;> simp [includeLine]
+    refine ⟨?_, hne.1, hne.2⟩
+    unfold lineConst at h
+    cases ht : lookupType backend p.kind p.bits with
+    | none => simp [ht] at h
+    | some dtype =>
+      cases hs : shapeOf p.value with
+      | none => simp [ht, hs] at h
+      | some sh =>
+        have hb3 : backend ∈ [bC, bCpp, bRust] := by rcases hb with rfl | rfl <;> simp
+        have hb2 : backend ∈ [bC, bCpp] := by rcases hb with rfl | rfl <;> simp
+        obtain ⟨n, _, hmem⟩ := targetKind_of_lookup backend hb3 p.kind p.bits dtype ht
+        have hdt := c_names_clean backend hb2 dtype hmem
+        have hval := printVal_clean styleC (by decide) (by decide) (by decide) (by decide) p.kind p.value hv hnl
+        have hkwc : clean kw = true := by rcases hkw with rfl | rfl <;> decide
+        simp only [ht, hs, Option.bind_eq_bind, Option.bind_some] at h
+        split at h <;>
+          (simp at h; subst h
+           simp [clean_append, clean_cons, clean_nil, hn, hdt, hval, hkwc, clean_shapeBrackets])
+
+/-! ## whole headers -/
+
+theorem mapM_map_param {β : Type} (g : Param → Param) (f : Param → Option β) : ∀ data : List Param,
+    (data.map g).mapM f = data.mapM (fun p => f (g p))
+  | [] => rfl
+  | p :: ps => by simp [List.mapM_cons, mapM_map_param g f ps]
+
+theorem macroParam_name (define : List Str) (p : Param) : (macroParam define p).name = p.name := by
+  unfold macroParam
+  split
+  · split <;> rfl
+  · rfl
+
+/-- a header whose body has one line per parameter (`line p`), read back -/
+theorem readC_export (backend : Str) (hb : backend = bC ∨ backend = bCpp) (ren : Bool) (define : List Str)
+    (guard : Str) (hg : clean guard = true) (inc : Bool) (data : List Param)
+    (line : Param → Option Str)
+    (hline : ∀ p ∈ data, ∃ kw, (kw = cs!"const" ∨ kw = cs!"constexpr") ∧ line p = lineOfC backend kw ren define p)
+    (hok : ∀ p ∈ data, ParamOKC ren define p) :
+    ((data.mapM line).map (headerWrap guard inc)).bind (readC backend guard) =
+      expected backend ren define (data.map (macroParam define)) := by
+  have hexp : expected backend ren define (data.map (macroParam define)) =
+      data.mapM (fun p => expectedSym backend ren (define.contains p.name) (macroParam define p)) := by
+    unfold expected
+    rw [mapM_map_param]
+    simp only [macroParam_name]
+  have hlines := mapM_lines line (readLineC backend)
+    (fun p => expectedSym backend ren (define.contains p.name) (macroParam define p)) data
+    (fun p hp => by
+      obtain ⟨kw, hkw, hl⟩ := hline p hp
+      rw [hl]
+      exact readLineC_lineOfC backend kw hb hkw ren define p (hok p hp))
+  rw [hexp, ← hlines]
+  cases hm : data.mapM line with
+  | none => simp
+  | some body =>
+    simp only [Option.map_some, Option.bind_some]
+    apply readC_headerWrap backend guard inc body hg
+    intro l hl
+    obtain ⟨p, hp, hlp⟩ := mapM_some_mem line data body hm l hl
+    obtain ⟨kw, hkw, hl2⟩ := hline p hp
+    rw [hl2] at hlp
+    exact lineOfC_clean backend kw hb hkw ren define p (hok p hp) l hlp
+
+theorem exportC_eq (o : COpts) (data : List Param) :
+    exportC o data = (data.mapM (fun p => lineOfC bC (cs!"const") o.rename o.define p)).map
+      (headerWrap o.guard (data.any (fun p => p.kind = Kind.bool ∧ ¬ o.define.contains p.name))) := by
+  unfold exportC lineOfC
+  cases data.mapM (fun p => if o.define.contains p.name then lineDefine o.rename p
+      else lineConst bC (cs!"const") o.rename p) <;> rfl
+
+/-- **whole C headers** -/
+theorem readC_exportC (o : COpts) (data : List Param) (hg : clean o.guard = true)
+    (hok : ∀ p ∈ data, ParamOKC o.rename o.define p) :
+    (exportC o data).bind (readC bC o.guard) = expected bC o.rename o.define (data.map (macroParam o.define)) := by
+  rw [exportC_eq]
+  exact readC_export bC (Or.inl rfl) o.rename o.define o.guard hg _ data _
+    (fun p _ => ⟨cs!"const", Or.inl rfl, rfl⟩) hok
+
+theorem exportCpp_eq (o : COpts) (data : List Param) :
+    exportCpp o data = (data.mapM (fun p => lineOfC bCpp
+        (if o.const.contains p.name then cs!"const" else cs!"constexpr") o.rename o.define p)).map
+      (headerWrap o.guard false) := by
+  unfold exportCpp lineOfC
+  have : (fun p => if o.define.contains p.name then lineDefine o.rename p
+        else if o.const.contains p.name then lineConst bCpp (cs!"const") o.rename p
+        else lineConst bCpp (cs!"constexpr") o.rename p) =
+      (fun p => if o.define.contains p.name then lineDefine o.rename p
+        else lineConst bCpp (if o.const.contains p.name then cs!"const" else cs!"constexpr") o.rename p) := by
+    funext p
+    split
+    · rfl
+    · split <;> simp_all
+  rw [this]
+  cases data.mapM (fun p => if o.define.contains p.name then lineDefine o.rename p
+      else lineConst bCpp (if o.const.contains p.name then cs!"const" else cs!"constexpr") o.rename p) <;> rfl
+
+/-- **whole C++ headers** (`define`, `const` and `constexpr` selections) -/
+theorem readC_exportCpp (o : COpts) (data : List Param) (hg : clean o.guard = true)
+    (hok : ∀ p ∈ data, ParamOKC o.rename o.define p) :
+    (exportCpp o data).bind (readC bCpp o.guard) =
+      expected bCpp o.rename o.define (data.map (macroParam o.define)) := by
+  rw [exportCpp_eq]
+  exact readC_export bCpp (Or.inr rfl) o.rename o.define o.guard hg _ data _
+    (fun p _ => ⟨if o.const.contains p.name then cs!"const" else cs!"constexpr",
+      by split <;> simp, rfl⟩) hok
 
 end SciVerif.C19
